@@ -151,6 +151,15 @@ pub fn members_of(t: &Tree, rng: &mut Prng, dm: DirMembers, order: usize, dot_sl
         let keep = match dm { DirMembers::All => true, DirMembers::None => false, DirMembers::Some => rng.chance(1, 2) };
         if keep { ms.push((1, Member { is_file: false, path: format!("{}/", q.join("/")), bytes: vec![] })); }
     }
+    // an archive has to contain the tree: a directory that no kept member lies in or below
+    // (an empty leaf, or one holding only such directories) keeps its own member; deepest first,
+    // so that a chain of empty directories gets one member, at its end
+    let mut by_depth: Vec<&Vec<String>> = t.dirs.iter().collect();
+    by_depth.sort_by_key(|q| std::cmp::Reverse(q.len()));
+    for q in by_depth {
+        let on_path = |m: &Member| { let c = norm_member_path(&m.path); let d = if m.is_file { &c[..c.len().saturating_sub(1)] } else { &c[..] }; d.starts_with(q) };
+        if !ms.iter().any(|(_, m)| on_path(m)) { ms.push((1, Member { is_file: false, path: format!("{}/", q.join("/")), bytes: vec![] })); }
+    }
     match order % 5 {
         0 => ms.sort_by(|a, b| a.1.path.cmp(&b.1.path)),                       // sorted: directories before their content
         1 => { ms.sort_by(|a, b| a.1.path.cmp(&b.1.path)); ms.reverse() }      // reversed: directories after their content
@@ -173,8 +182,11 @@ fn norm_member_path(p: &str) -> Vec<String> {
 }
 
 /// `members` is an archive of `t` (statement: every file exactly once with its bytes, every
-/// directory at most once, nothing else; optional `./` prefix).
+/// directory at most once, nothing else; optional `./` prefix) — and it contains the whole tree:
+/// a directory without a member of its own is on the path of some member.
 pub fn archives(t: &Tree, members: &[Member]) -> bool {
+    let on_path = |q: &Vec<String>, m: &Member| { let c = norm_member_path(&m.path); let d = if m.is_file { &c[..c.len().saturating_sub(1)] } else { &c[..] }; d.starts_with(q) };
+    if !t.dirs.iter().all(|q| members.iter().any(|m| on_path(q, m))) { return false; }
     let mut files: Vec<(Vec<String>, &[u8])> = members.iter().filter(|m| m.is_file).map(|m| (norm_member_path(&m.path), &m.bytes[..])).collect();
     let mut want: Vec<(Vec<String>, &[u8])> = t.files.iter().map(|f| (norm_member_path(&f.path()), &f.bytes[..])).collect();
     files.sort(); want.sort();
